@@ -13,5 +13,5 @@ case "$PKG" in
 esac
 cp /verif/findings/$F $D/zz_finding_test.go
 printf '{"Replace":{"%s/zz_finding_test.go":"%s/zz_finding_test.go"}}' "$DIR" "$D" > $D/ov.json
-(cd "$DIR" && go test -overlay $D/ov.json -vet=off -count=1 -timeout 120s -run "^$T\$" -v . 2>&1 | tail -15)
+(cd "$DIR" && go test -overlay $D/ov.json -vet=off -count=1 -timeout 120s -run "$T" -v . 2>&1 | tail -15)
 rm -rf $D
